@@ -6,7 +6,7 @@ import checklib as C
 import buildgen
 from props import common, c06diag
 
-MODULE = "Rspirv.Props.C06Typed"
+MODULE = "Rspirv.Props.C06Emit"
 THEOREMS = ["Rspirv.Props.C06.methods_ok", "Rspirv.Props.C06.wrappers_ok", "Rspirv.Props.C06.walk_sound",
             "Rspirv.Props.C06.C06_methods", "Rspirv.Props.C06.C06_terminators", "Rspirv.Props.C06.terminators_covered"] + \
            ["Rspirv.Props.Reload." + n for n in ("run_fn", "run_sects", "load_canon")] + \
@@ -20,6 +20,8 @@ THEOREMS = ["Rspirv.Props.C06.methods_ok", "Rspirv.Props.C06.wrappers_ok", "Rspi
            ["Rspirv.Props.C06Typed." + n for n in ("loopT_indep", "instT_indep", "typed_track", "typedAll_stream",
                                                    "C06_roundtrip_typed", "many_loopT", "groups_loopT", "call_typed",
                                                    "collect_flatten")] + \
+           ["Rspirv.Props.C06Emit." + n for n in ("adds_push", "updBlock_adds", "insertIntoBlock_adds", "step_mem", "run_all",
+                                                  "C06_typed_history")] + \
            ["Rspirv.Props.C02Typed.typed_spec", "Rspirv.Props.C02TypedInst.typedStream_grammar"]
 NEEDS = ("header", "core", "decode", "operand_enum", "asm_arms", "parse_operand", "operands", "builder", "traversals")
 
@@ -31,7 +33,7 @@ def run(ctx):
         have = C.need(ctx, *NEEDS)
         failing = C.prove(ctx, MODULE, THEOREMS, extra_targets=["driver"],
                           files=["Rspirv/Props/C06.lean", "Rspirv/Generic/Method.lean", "Rspirv/Props/Reload.lean", "Rspirv/Props/RoundTrip.lean",
-                                 "Rspirv/Props/C06Round.lean", "Rspirv/Props/C06End.lean", "Rspirv/Props/C06Typed.lean", "Rspirv/Props/C02Typed.lean", "Rspirv/Props/C02TypedInst.lean", "Rspirv/Model/Typed.lean", "Rspirv/Model/Builder.lean",
+                                 "Rspirv/Props/C06Round.lean", "Rspirv/Props/C06End.lean", "Rspirv/Props/C06Typed.lean", "Rspirv/Props/C06Emit.lean", "Rspirv/Props/C02Typed.lean", "Rspirv/Props/C02TypedInst.lean", "Rspirv/Model/Typed.lean", "Rspirv/Model/Builder.lean",
                                  "Rspirv/Model/BuilderHand.lean", "Rspirv/Instances.lean"]) if have else []
     if not hok or ext is None:
         ctx.issue("harness-build", "the harness no longer builds against the working tree: " + (herr or ctx.data.get("harness_error", ""))[-400:])
@@ -202,7 +204,7 @@ def run(ctx):
     ctx.samples = [{"request": reqs[i][:200], "implementation": impl[i][:160]} for i in (5, n_single + 3, len(reqs) - 1)]
     ctx.assumptions += ["ArgsConform: arguments conform to the grammar (optional operands as a trailing run, parameters only on the last parameterised operand of a call, literal widths consistent with tracked types, OpSwitch selectors untracked); histories complete; no begin_block_no_label (known finding)",
                         "C06_roundtrip / C06_scope: for complete plain histories (no select_function/select_block/pop_instruction/raw insertion, terminators appended at the end, end_function only with no open block) whose module is a stream of instructions of the grammar, load_bytes(assemble(module)) = Ok(module) is a theorem; 'instruction of the grammar' is defined through the recogniser Spec.inst (C03: what the parser accepts); the other histories are decided by the differential only"]
-    return C.finish(ctx, level="proof", checker_cmd="lake build Rspirv.Props.C06Typed (method table merge-walk, Builder invariant, canonical reload, end-to-end theorem, typed arguments) + #print axioms",
+    return C.finish(ctx, level="proof", checker_cmd="lake build Rspirv.Props.C06Emit (method table merge-walk, Builder invariant, canonical reload, end-to-end theorem, typed arguments) + #print axioms",
                     rule="every generated instruction-emitting method called once in a minimal complete history with grammar-conforming arguments, plus seeded complete histories over all methods; distinct non-trivial = distinct histories",
                     trusted=["translator builder.py", "hand models + differential harness (chan/build.rs buildrt)"])
 
